@@ -229,8 +229,14 @@ def run_opt(case, options, context, labels):
     # dictionary / JSON round trip
     d = opm.to_dict()
     dj = json.loads(json.dumps(d))
-    for what, dd in (("to_dict", d), ("to_dict/JSON", dj)):
+    for what, dd in (("to_dict", d), ("to_dict/JSON", dj),
+                     ("to_dict, loaded a second time", d),
+                     ("to_dict/JSON, loaded a second time", dj)):
+        before = json.dumps(dd, sort_keys=True, default=str)
         o2 = hyruns.OptionManager.from_dict(dd)
+        if json.dumps(dd, sort_keys=True, default=str) != before:
+            raise Violation(f"from_dict({what}) altered the dictionary it "
+                            "was given")
         if not (opm == o2):
             raise Violation(f"manager != from_dict({what})")
         if not (o2 == opm):
